@@ -10,6 +10,9 @@ import WcModel.Proofs.GlobTop
   Part 3  `storeAll`, `globSplit` in stages (`globSplit_eq`), the shape of the list before the
           implicit base part (`storedParts_shape`) and of the whole output (`globSplit_shape`),
           facts about single parts (`PartOK'.*`) and the goal theorems (`globSplit_*`).
+  Part 4  MATCHBASE / `_EXTMATCHBASE` change nothing in the split but the base part
+          (`globSplit_base_only`); every compiled part is compiled with both flags cleared
+          (`globSplit_part_compiled`) — the G6 repair, for all strings and flag words.
 
   The inner fuel of `parse_extend` is immaterial here: running out of it is one more way for a
   group to fail, and every statement below holds whether a group succeeds or fails.  The outer
@@ -110,7 +113,7 @@ structure Stored (c : SplitCfg) (v : List Char) (d : Bool) (q : GPart) : Prop wh
   drive : q.isDrive = false
   magic : q.isMagic = GSplit.isMagic c.flags v
   lit : q.isMagic = false → q.pat = .lit v
-  re : q.isMagic = true → ∃ r, q.pat = .re v r
+  re : q.isMagic = true → ∃ r, compilePart c.partFlags c.isBytes v = .ok r ∧ q.pat = .re v r
   gs : q.isGlobstar = ((c.globstarlong && v == star3) || (c.globstar && v == star2))
   gsl : q.isGlobstarLong = (c.globstarlong && v == star3)
 
@@ -149,12 +152,12 @@ theorem store_cases {c : SplitCfg} {v : List Char} {l l' : List GPart} {d : Bool
           exact ⟨rfl, rfl, rfl, hm.symm, fun _ => rfl, (fun h => by cases h), rfl, rfl⟩
         | true =>
           simp only [hm, if_true] at hpv
-          cases hc : compilePart c.flags c.isBytes v with
+          cases hc : compilePart c.partFlags c.isBytes v with
           | error e => simp [hc, Except.map] at hpv
           | ok r =>
             simp only [hc, Except.map] at hpv
             cases hpv
-            exact ⟨rfl, rfl, rfl, hm.symm, (fun h => by cases h), fun _ => ⟨r, rfl⟩, rfl, rfl⟩
+            exact ⟨rfl, rfl, rfl, hm.symm, (fun h => by cases h), fun _ => ⟨r, hc, rfl⟩, rfl, rfl⟩
       refine ⟨_, hst, hne, ?_⟩
       split at h
       · rename_i hg
@@ -1392,7 +1395,7 @@ theorem PartOK'.pat {c : SplitCfg} {q : GPart} (h : PartOK' c q) :
   · exact Or.inl ⟨rfl, rfl⟩
   · cases hm : q.isMagic with
     | false => left; rw [hst.lit hm]; exact ⟨rfl, rfl⟩
-    | true => right; left; obtain ⟨r, hr⟩ := hst.re hm; rw [hr]; exact ⟨rfl, r, rfl⟩
+    | true => right; left; obtain ⟨r, _, hr⟩ := hst.re hm; rw [hr]; exact ⟨rfl, r, rfl⟩
   · exact Or.inr (Or.inr rfl)
 
 /-- `is_magic` of a part is `_GlobSplit.is_magic` of its text (the base part is magic by fiat) -/
@@ -1677,5 +1680,135 @@ theorem globSplit_lit_noslash (f : Flags) (isBytes : Bool) (p : List Char) (part
   have hsrc : q.pat.src = q.pat.text := by rw [hlit]; rfl
   have := (globSplit_inner_slash f isBytes p parts h q hq hd (by rw [hsrc]; exact hs)).2.2
   rw [hm] at this; cases this
+
+/-! ## Part 4: MATCHBASE / `_EXTMATCHBASE` and the split (the G6 repair)
+
+  `store` compiles a magic part under `self.flags & ~(MATCHBASE | _EXTMATCHBASE)` (`SplitCfg.partFlags`),
+  so the two flags reach nothing in `split` but the decision to put the base part in front. -/
+
+/-- the configuration with MATCHBASE / `_EXTMATCHBASE` cleared -/
+def SplitCfg.noBase (c : SplitCfg) : SplitCfg := { c with flags := c.flags.noBase }
+
+theorem SplitCfg.ofFlags_noBase (f : Flags) (isBytes : Bool) :
+    SplitCfg.ofFlags f.noBase isBytes = (SplitCfg.ofFlags f isBytes).noBase := rfl
+
+theorem store_noBase (c : SplitCfg) (v : List Char) (l : List GPart) (d : Bool) :
+    GSplit.store c.noBase v l d = GSplit.store c v l d := rfl
+
+theorem storeAll_noBase (c : SplitCfg) (p : List Char) : ∀ (splits : List (Nat × Nat)) (start : Int) (l : List GPart),
+    GSplit.storeAll c.noBase p splits start l = GSplit.storeAll c p splits start l := by
+  intro splits
+  induction splits with
+  | nil => intro start l; rfl
+  | cons so r ih =>
+    intro start l
+    obtain ⟨split, off⟩ := so
+    simp only [GSplit.storeAll, store_noBase]
+    cases GSplit.store c (GSplit.slice p (start + 1).toNat split) l true with
+    | error e => rfl
+    | ok l1 => exact ih _ _
+
+theorem storedParts_noBase (c : SplitCfg) (p : List Char) : storedParts c.noBase p = storedParts c p := by
+  unfold storedParts
+  rw [storeAll_noBase]
+  rfl
+
+theorem needBase_noBase (c : SplitCfg) (s : List GPart) : needBase c.noBase s = false := rfl
+
+theorem withBase_noBase (c : SplitCfg) (s : List GPart) : withBase c.noBase s = s := rfl
+
+/-- a stored list that begins with the drive gets no base part -/
+theorem withBase_drive (c : SplitCfg) (p : List Char) (s : List GPart) (hs : storedParts c p = .ok s)
+    (hd : (s.head?.map (·.isDrive)).getD false = true) : withBase c s = s := by
+  obtain ⟨_, _, hok, _, _⟩ := storedParts_shape c p s hs
+  cases s with
+  | nil => simp at hd
+  | cons a r =>
+    simp only [List.head?_cons, Option.map_some, Option.getD_some] at hd
+    have ha : a = drivePart := by
+      rcases hok a List.mem_cons_self with rfl | ⟨v, d, hst, _⟩
+      · rfl
+      · rw [hst.drive] at hd; cases hd
+    subst ha
+    unfold withBase needBase
+    simp [drivePart]
+
+theorem withBase_head_drive (c : SplitCfg) (s : List GPart)
+    (hd : ((withBase c s).head?.map (·.isDrive)).getD false = true) :
+    (s.head?.map (·.isDrive)).getD false = true := by
+  unfold withBase at hd
+  split at hd
+  · rcases basePart_cases c with ⟨h, _, _⟩ | h <;> rw [h] at hd <;> simp at hd
+  · exact hd
+
+/-- **MATCHBASE / `_EXTMATCHBASE` have exactly one effect on the split: the implicit base part.**
+    For every pattern string and flag word, `_GlobSplit(p, f).split()` is the split under
+    `f & ~(MATCHBASE | _EXTMATCHBASE)` — the same parts, the same compiled regexes — with the base
+    part `**` / `***` put in front when the flags ask for it (the G6 repair; before it every magic
+    part was compiled with the flags still set and carried the prefix itself). -/
+theorem globSplit_base_only (f : Flags) (isBytes : Bool) (p : List Char) :
+    globSplit f isBytes p = (globSplit f.noBase isBytes p).map (withBase (SplitCfg.ofFlags f isBytes)) := by
+  rw [globSplit_eq f, globSplit_eq f.noBase, SplitCfg.ofFlags_noBase]
+  have hu : isUnixStyle f.noBase = isUnixStyle f := rfl
+  have he : effPattern f.noBase p = effPattern f p := rfl
+  rw [hu, he, storedParts_noBase]
+  split
+  · rfl
+  · cases hs : storedParts (SplitCfg.ofFlags f isBytes) (effPattern f p) with
+    | error e => rfl
+    | ok s =>
+      simp only [withBase_noBase]
+      have hna : (SplitCfg.ofFlags f isBytes).noBase.flags.noabsolute = (SplitCfg.ofFlags f isBytes).flags.noabsolute := rfl
+      rw [hna]
+      cases hn : (SplitCfg.ofFlags f isBytes).flags.noabsolute with
+      | false => simp [Except.map]
+      | true =>
+        simp only [Bool.true_and]
+        by_cases hd : (s.head?.map (·.isDrive)).getD false = true
+        · have hw := withBase_drive _ _ s hs hd
+          rw [hw]; simp [hd, Except.map]
+        · have hd' : ¬ ((withBase (SplitCfg.ofFlags f isBytes) s).head?.map (·.isDrive)).getD false = true :=
+            fun h => hd (withBase_head_drive _ s h)
+          simp [hd, hd', Except.map]
+
+/-- … in particular the parts of a successful split are the parts of the split under the cleared
+    flags, after the base part (if there is one) -/
+theorem globSplit_base_only_ok (f : Flags) (isBytes : Bool) (p : List Char) (parts : List GPart)
+    (h : globSplit f isBytes p = .ok parts) :
+    ∃ s, globSplit f.noBase isBytes p = .ok s ∧
+      (parts = s ∨ (parts = basePart (SplitCfg.ofFlags f isBytes) :: s ∧ (f.extmatchbase = true ∨ f.matchbase = true))) := by
+  rw [globSplit_base_only] at h
+  cases hs : globSplit f.noBase isBytes p with
+  | error e => rw [hs] at h; cases h
+  | ok s =>
+    rw [hs] at h
+    simp only [Except.map] at h
+    cases h
+    refine ⟨s, rfl, ?_⟩
+    unfold withBase
+    by_cases hb : needBase (SplitCfg.ofFlags f isBytes) s = true
+    · right
+      simp only [hb, if_true, true_and]
+      unfold needBase at hb
+      simp only [Bool.or_eq_true, Bool.and_eq_true] at hb
+      rcases hb with ⟨hb, _⟩ | ⟨⟨hb, _⟩, _⟩
+      · exact Or.inl hb
+      · exact Or.inr hb
+    · left; simp only [hb, Bool.false_eq_true, if_false]
+
+/-- **every compiled part is compiled under `flags & ~(MATCHBASE | _EXTMATCHBASE)`**: a magic part
+    other than the base part holds the regex `_wcparse._compile(text, …)` gives for its text under
+    the flags with both bits cleared -/
+theorem globSplit_part_compiled (f : Flags) (isBytes : Bool) (p : List Char) (parts : List GPart)
+    (h : globSplit f isBytes p = .ok parts) :
+    ∀ q ∈ parts, q.isMagic = true → q ≠ basePart (SplitCfg.ofFlags f isBytes) →
+      ∃ r, compilePart (SplitCfg.ofFlags f isBytes).flags.noBase isBytes q.pat.src = .ok r ∧ q.pat = .re q.pat.src r := by
+  intro q hq hm hb
+  rcases globSplit_parts_ok h q hq with (rfl | ⟨v, d, hst, _⟩) | rfl
+  · cases hm
+  · obtain ⟨r, hc, hr⟩ := hst.re hm
+    rw [hst.src]
+    exact ⟨r, hc, hr⟩
+  · exact absurd rfl hb
 
 end WcModel
